@@ -9,6 +9,7 @@ package main
 import (
 	"bytes"
 	"context"
+	"crypto/ecdsa"
 	"flag"
 	"fmt"
 	"math"
@@ -37,6 +38,7 @@ import (
 	"github.com/aukilabs/hagall/modules/odal"
 	"github.com/aukilabs/hagall/modules/vikja"
 	hws "github.com/aukilabs/hagall/websocket"
+	"github.com/ethereum/go-ethereum/crypto"
 	"golang.org/x/net/websocket"
 	"google.golang.org/protobuf/types/known/timestamppb"
 )
@@ -78,6 +80,7 @@ func newServer(idle, frame time.Duration) *server {
 				Modules:                 []modules.Module{&vikja.Module{}, &odal.Module{}, &dagaz.Module{}},
 				FeatureFlags:            featureflag.New(nil),
 				ReceiptChan:             s.receipts,
+				PrivateKey:              wireKey,
 			}
 			h := hws.HandlerWithLogs(rh, time.Hour)
 			h = hws.HandlerWithMetrics(h, "https://wire.test")
@@ -96,6 +99,15 @@ func newServer(idle, frame time.Duration) *server {
 	return s
 }
 
+// the wallet key the server signs latency reports with
+var wireKey = func() *ecdsa.PrivateKey {
+	k, err := crypto.GenerateKey()
+	if err != nil {
+		panic(err)
+	}
+	return k
+}()
+
 // ---------------------------------------------------------------- clients
 
 type client struct {
@@ -109,20 +121,35 @@ type client struct {
 }
 
 func (s *server) dial(name string, read bool) *client {
+	c, refused := s.tryDialAs(name, read, "")
+	if refused {
+		panic("websocket handshake refused")
+	}
+	return c
+}
+
+// tryDialAs: with the client id the connection announces in its handshake (any bytes: it is an HTTP header)
+func (s *server) tryDialAs(name string, read bool, clientID string) (*client, bool) {
 	cfg, err := websocket.NewConfig(strings.Replace(s.ts.URL, "http://", "ws://", 1), "http://localhost")
 	if err != nil {
 		panic(err)
 	}
 	cfg.Header.Set("User-Agent", "wire")
+	if clientID != "" {
+		cfg.Header["Posemesh-Client-Id"] = []string{clientID}
+	}
 	ws, err := websocket.DialConfig(cfg)
 	if err != nil {
+		if clientID != "" {
+			return nil, true
+		}
 		panic(err)
 	}
 	c := &client{ws: ws, closed: make(chan struct{}), name: name}
 	if read {
 		go c.readLoop()
 	}
-	return c
+	return c, false
 }
 
 func (c *client) readLoop() {
@@ -702,6 +729,7 @@ func scenarioIdle(seed int64, idle, frame time.Duration) *verdict {
 	// the talking client sends a request every quarter of the idle timeout, on its own clock (it does not wait for the
 	// answers: a slow machine must not turn it into a silent one)
 	stopTalking := make(chan struct{})
+	talk := w.r.Intn(4)
 	go func() {
 		t := time.NewTicker(idle / 4)
 		defer t.Stop()
@@ -710,7 +738,18 @@ func scenarioIdle(seed int64, idle, frame time.Duration) *verdict {
 			case <-stopTalking:
 				return
 			case <-t.C:
-				chatty.send(&hagallpb.Request{Type: hagallpb.MsgType_MSG_TYPE_PING_REQUEST, Timestamp: now(), RequestId: rid()})
+				// whatever it sends, it is not idle: requests that are answered, updates that wait for a frame, updates
+				// that are dropped for carrying no pose, messages of no known type
+				switch talk {
+				case 0:
+					chatty.send(&hagallpb.Request{Type: hagallpb.MsgType_MSG_TYPE_PING_REQUEST, Timestamp: now(), RequestId: rid()})
+				case 1:
+					chatty.send(&hagallpb.EntityUpdatePose{Type: hagallpb.MsgType_MSG_TYPE_ENTITY_UPDATE_POSE, Timestamp: now(), EntityId: 1})
+				case 2:
+					chatty.send(&hagallpb.EntityUpdatePose{Type: hagallpb.MsgType_MSG_TYPE_ENTITY_UPDATE_POSE, Timestamp: now(), EntityId: 77, Pose: &hagallpb.Pose{Px: 1}})
+				default:
+					chatty.send(&hagallpb.Request{Type: hagallpb.MsgType(4242), Timestamp: now()})
+				}
 			}
 		}
 	}()
@@ -718,7 +757,7 @@ func scenarioIdle(seed int64, idle, frame time.Duration) *verdict {
 	talking := chatty.ping(patience)
 	close(stopTalking)
 	if !talking {
-		return w.finish(&verdict{"talking-client-disconnected", "a client that sends a request every quarter of the idle timeout was disconnected"}, 0, 3*time.Second+2*idle)
+		return w.finish(&verdict{"talking-client-disconnected", fmt.Sprintf("a client that sends a message (kind %d: 0 ping, 1 pose update without a pose, 2 pose update, 3 unknown type) every quarter of the idle timeout was disconnected", talk)}, 0, 3*time.Second+2*idle)
 	}
 	select {
 	case <-silent.closed:
@@ -1247,7 +1286,53 @@ func scenarioReceipts(seed int64, idle, frame time.Duration) *verdict {
 	return w.finish(v, 0, 8*time.Second)
 }
 
+// scenarioLatency: a signed latency measurement over a real socket, for clients that announce every kind of client id:
+// it runs its rounds and ends with one response to the request
+func scenarioLatency(seed int64, idle, frame time.Duration) *verdict {
+	w := newWorld(seed, 5*time.Second, frame)
+	ids := []string{"client-1", "", "caf\xe9", "caf\xc3\xa9", "\xff\xfex", strings.Repeat("k", 300), "spaced  out"}
+	id := ids[w.r.Intn(len(ids))]
+	c, refused := w.s.tryDialAs("measured", true, id)
+	if refused {
+		// a handshake the HTTP layer does not accept is no connection at all
+		return w.finish(nil, 0, 8*time.Second)
+	}
+	w.all = append(w.all, c)
+	c.join(w.sidA)
+	rounds := 3 + w.r.Intn(3)
+	req := rid()
+	c.send(&hagallpb.SignedLatencyRequest{Type: hagallpb.MsgType_MSG_TYPE_SIGNED_LATENCY_REQUEST, Timestamp: now(), RequestId: req, IterationCount: uint32(rounds), WalletAddress: "0xabc"})
+	var v *verdict
+	seen := map[uint32]bool{}
+	for i := 0; i < rounds && v == nil; i++ {
+		m, ok := c.waitFor(hagallpb.MsgType_MSG_TYPE_PING_REQUEST, patience, func(m hwebsocket.Msg) bool {
+			var p hagallpb.Request
+			m.DataTo(&p)
+			return !seen[p.RequestId]
+		})
+		if !ok {
+			v = &verdict{"measurement-round-missing", fmt.Sprintf("client id %q: ping %d of %d was never issued", id, i+1, rounds)}
+			break
+		}
+		var p hagallpb.Request
+		m.DataTo(&p)
+		seen[p.RequestId] = true
+		c.send(&hagallpb.Response{Type: hagallpb.MsgType_MSG_TYPE_PING_RESPONSE, Timestamp: now(), RequestId: p.RequestId})
+	}
+	if v == nil {
+		if _, ok := c.waitFor(hagallpb.MsgType_MSG_TYPE_SIGNED_LATENCY_RESPONSE, patience, func(m hwebsocket.Msg) bool {
+			var r hagallpb.SignedLatencyResponse
+			m.DataTo(&r)
+			return r.RequestId == req
+		}); !ok {
+			v = &verdict{"measurement-never-reported", fmt.Sprintf("client id %q: %d rounds answered, the signed latency request %d got no response", id, rounds, req)}
+		}
+	}
+	return w.finish(v, 0, 8*time.Second)
+}
+
 var scenarios = map[string]func(int64, time.Duration, time.Duration) *verdict{
+	"latency":  scenarioLatency,
 	"receipts": scenarioReceipts,
 	"churn":    scenarioChurn, "types": scenarioTypes,
 	"concurrent": scenarioConcurrent,
